@@ -157,6 +157,10 @@ def step (_ : Unit) (ws : List String) : Unit × String × String × String :=
     match v with
     | some v => let (m, s, t) := valLine v; ((), m, s, t)
     | none => ((), "bad-op", "-", "")
+  | ["wr", _, _] =>
+    -- `ndb_execute_write` commits whenever the statement succeeded (`Generated.capiAutoCommitUnconditional`,
+    -- Props.C34.autocommit_persists_staged), as the Rust path does: same outcome, same database afterwards
+    ((), "eq eq", "eq eq", "")
   | ["het", _, _] =>
     -- every row is converted on its own (`Generated.capiReifiesPerRow`): what one row holds cannot change how another
     -- row's values come out, so the C rows equal the Rust rows whatever the mix of plain and graph values
